@@ -71,12 +71,14 @@ def make_jobs(prop, tier, seed):
                     cfg.builder = [b for b in cfg.builder if b[0] != "sample_count"]
                     if not bounded(sp, cfg):
                         continue
+            cfg.job_ref = {"profile": prop, "tier": tier, "seed": seed, "index": len(jobs)}
             jobs.append((sp, cfg))
     return jobs
 
 
 def replay_payload(sp, cfg, res):
-    return {"engine": "native", "bin": "treedrv", "spec": res.spec_text, "config": cfg.describe(), "stdout": res.stdout[-6000:], "stderr": res.stderr[-1500:]}
+    return {"engine": "native", "bin": "treedrv", "spec": res.spec_text, "config": cfg.describe(), "stdout": res.stdout[-6000:], "stderr": res.stderr[-1500:],
+            "job": getattr(cfg, "job_ref", None)}
 
 
 def run_jobs(prop, jobs, out, want=None, extra=None):
@@ -308,7 +310,18 @@ def check(prop, tier, seed, out):
 
 def replay(prop, rp, out):
     r = rp["first"]["replay"]
-    out.extra["note"] = "replays of treedrv runs re-run the whole quick tier with the recorded seed (specs are regenerated deterministically)"
+    job = r.get("job")
+    if job:
+        # registries and configurations are regenerated deterministically from (profile, tier, seed); run that one job again
+        jobs = make_jobs(job["profile"], job["tier"], job["seed"])
+        if job["index"] < len(jobs):
+            agg, results, exe = run_jobs(prop, [jobs[job["index"]]], out)
+            out.extra["observed"] = agg
+            out.extra["replayed_job"] = job
+            if prop == "C14":
+                c14_differential(prop, results, exe, out, "quick", job["seed"])
+            return
+    out.extra["note"] = "no job reference in the replay file: re-running the quick tier with the recorded seed"
     check(prop, "quick", rp.get("seed", 1), out)
 
 
